@@ -7,3 +7,4 @@ import Z80.Spec.Alu
 import Z80.Spec.Exec
 import Z80.Spec.Decode
 import Z80.Spec.Koron
+import Z80.Spec.Interrupt
